@@ -163,4 +163,17 @@ theorem relaxing_misc_can_remove :
     "RHAAAAAAK".toList ∈ callVariant (exCfg 0) exTx [exVar] ∧
       "RHAAAAAAK".toList ∉ callVariant (exCfg 1) exTx [exVar] := by decide
 
+/-- **What the compiled driver evaluates is the definition.**  The native driver runs
+`productFormsFast` (W→F images only of products within `maxLen`) wherever `productForms` occurs
+(`@[csimp]` in `Spec/CallVariant.lean`); the two are equal for every configuration, protein and
+flag combination — as lists, in the same order. -/
+theorem productForms_compiled_eq (g : Cfg) (prot : Pep) (nf closed endNF : Bool) :
+    productForms g prot nf closed endNF = productFormsFast g prot nf closed endNF :=
+  productForms_eq_fast' g prot nf closed endNF
+
+/-- non-vacuity: with W→F on and `maxLen := 25` the 30-residue product keeps no image, the short
+one keeps its image -/
+example : productForms { exCfg 0 with w2f := true } "AWAAAAAAKWAAAAAAAAAAAAAAAAAAAAAAAAAAAAAR".toList false true false
+    = ["AWAAAAAAK".toList, "AFAAAAAAK".toList] := by decide
+
 end MoPepGen.Props.C05
